@@ -225,7 +225,10 @@ def shard_grid(desc, rec):
     cands = [("arr2", np.array([1, 2], np.int32), True), ("list2", [1, 2], True), ("tuple2", (3, 4), True),
              ("arr22", np.array([[0, 0], [640, 480]], np.int32), False), ("nested22", [[0, 0], [640, 480]], False),
              ("nested22t", ((0, 0), (640, 480)), False), ("None", None, False), ("arr3", np.array([1, 2, 3], np.int32), False),
-             ("scalar", 5, False), ("list1", [7], False), ("str", "ab", False)]
+             ("scalar", 5, False), ("list1", [7], False), ("str", "ab", False),
+             ("list-of-2-arrays(2)", [np.zeros(2, np.int32), np.ones(2, np.int32)], False),
+             ("list-of-2-arrays(3)", [np.zeros(3), np.zeros(3)], False), ("list(eye2)", list(np.eye(2, dtype=np.int32)), False),
+             ("tuple-of-0d-arrays", (np.array(3), np.array(4)), True)]
     for no, ao, oko in cands:
         for ns, as_, oks in cands:
             check_arg(rec, "CameraViewPort(origin,size)", lambda x: _seelab(view_port=tdfTypes.CameraViewPort(x[0], x[1])),
